@@ -3,7 +3,7 @@ C05 helper lemmas, part 3: from the per-iteration protection guarantee to the ph
 statement (`physRepl … heldAfter ≥ min desired (physRepl … heldBefore)`) for layouts whose mounts
 are pairwise `Apart`.
 -/
-import ArvVerif.Proofs.C05Safe
+import ArvVerif.Proofs.C05Multi
 namespace ArvVerif.C05
 
 /-! ### slot lists with the same cores -/
@@ -107,17 +107,21 @@ theorem Prot.transport {env : Env} {c : Class} {u u' : List Int} {l l' : List Sl
 theorem apart_pairwise_of_perm {l₁ l₂ : List Mount} (h : l₁.Perm l₂) (hp : l₂.Pairwise Apart) : l₁.Pairwise Apart :=
   (h.pairwise_iff (fun {_ _} hab => Apart.symm hab)).2 hp
 
-/-- under the layout hypotheses every class of the loop with desired > 0 ends up protected -/
-theorem runClasses_prot (env : Env) (sorter : Class → List Slot → List Slot) (c : Class) :
-    ∀ (cs : List Class) (b : BState), RunOK env sorter cs b → (b.slots.map (·.mnt)).Pairwise Apart →
+/-- If a condition `G` on the slot list (stable under reordering and `want` updates) makes every
+iteration for `c` protect the class, then every class of the loop with desired > 0 ends up
+protected. -/
+theorem runClasses_prot_of (env : Env) (sorter : Class → List Slot → List Slot) (c : Class)
+    (G : List Slot → Prop) (hG : ∀ l l', CoreRel l l' → G l' → G l)
+    (hiter : ∀ (S : List Slot) (b : BState), S.Pairwise (fun a b => less env c b a = false) → G S →
+      Prot env c (classIter env c S b).utd S) :
+    ∀ (cs : List Class) (b : BState), RunOK env sorter cs b → G b.slots →
       c ∈ cs → env.desired c ≠ 0 →
       Prot env c (runClasses env sorter cs b).utd (runClasses env sorter cs b).slots := by
   intro cs
   induction cs with
   | nil => intro b _ _ hm; cases hm
   | cons c0 cs ih =>
-    intro b hok hap hm hd
-    have hok' := hok
+    intro b hok hg hm hd
     unfold RunOK at hok
     by_cases hd0 : env.desired c0 = 0
     · have hrun : runClasses env sorter (c0 :: cs) b = runClasses env sorter cs b := by
@@ -127,7 +131,7 @@ theorem runClasses_prot (env : Env) (sorter : Class → List Slot → List Slot)
       rw [hrun]
       rcases List.mem_cons.1 hm with rfl | hm'
       · exact absurd hd0 hd
-      · exact ih b hok hap hm' hd
+      · exact ih b hok hg hm' hd
     · have hrun : runClasses env sorter (c0 :: cs) b =
           runClasses env sorter cs (classIter env c0 (sorter c0 b.slots) b) := by
         conv => lhs; unfold runClasses
@@ -135,38 +139,83 @@ theorem runClasses_prot (env : Env) (sorter : Class → List Slot → List Slot)
       simp only [hd0, if_false] at hok
       rw [hrun]
       have hS := hok.1
-      have hapS : ((sorter c0 b.slots).map (·.mnt)).Pairwise Apart :=
-        apart_pairwise_of_perm (hS.1.map _) hap
-      have hap1 : ((classIter env c0 (sorter c0 b.slots) b).slots.map (·.mnt)).Pairwise Apart :=
-        apart_pairwise_of_perm (coreRel_mnt_perm (classIter_coreRel env c0 hS.1)) hap
+      have hgS : G (sorter c0 b.slots) := hG _ _ (coreRel_of_perm hS.1) hg
+      have hg1 : G (classIter env c0 (sorter c0 b.slots) b).slots := hG _ _ (classIter_coreRel env c0 hS.1) hg
       rcases List.mem_cons.1 hm with rfl | hm'
-      · have h0 := classIter_protects env c (sorter c b.slots) b hS.2 hapS
+      · have h0 := hiter (sorter c b.slots) b hS.2 hgS
         have hrel : CoreRel (sorter c b.slots)
             (runClasses env sorter cs (classIter env c (sorter c b.slots) b)).slots := by
           have r1 := runClasses_coreRel env sorter cs _ hok.2
           have r2 := classIter_coreRel env c (b := b) hS.1
           exact ((r1.trans r2).trans (coreRel_of_perm hS.1).symm).symm
         exact Prot.transport (env := env) h0 (fun t ht => runClasses_utd_mono env sorter cs _ t ht) hrel
-      · exact ih _ hok.2 hap1 hm' hd
+      · exact ih _ hok.2 hg1 hm' hd
+
+/-- one mount per server, no shared device -/
+theorem runClasses_prot (env : Env) (sorter : Class → List Slot → List Slot) (c : Class)
+    (cs : List Class) (b : BState) (hok : RunOK env sorter cs b) (hap : (b.slots.map (·.mnt)).Pairwise Apart)
+    (hc : c ∈ cs) (hd : env.desired c ≠ 0) :
+    Prot env c (runClasses env sorter cs b).utd (runClasses env sorter cs b).slots :=
+  runClasses_prot_of env sorter c (fun l => (l.map (·.mnt)).Pairwise Apart)
+    (fun _ _ hrel h => apart_pairwise_of_perm (coreRel_mnt_perm hrel) h)
+    (fun S b hs hg => classIter_protects env c S b hs hg) cs b hok hap hc hd
+
+theorem mem_of_coreRel {l l' : List Slot} (h : CoreRel l l') {s : Slot} (hs : s ∈ l) :
+    ∃ s' ∈ l', s'.mnt = s.mnt ∧ s'.repl = s.repl := by
+  have : core s ∈ l'.map core := h.mem_iff.1 (List.mem_map.2 ⟨s, hs, rfl⟩)
+  obtain ⟨s', hs', e⟩ := List.mem_map.1 this
+  exact ⟨s', hs', congrArg Prod.fst e, congrArg Prod.snd e⟩
+
+/-- distinct mounts, no shared device, every replica on an in-class mount -/
+theorem runClasses_prot_inclass (env : Env) (sorter : Class → List Slot → List Slot) (c : Class)
+    (cs : List Class) (b : BState) (hok : RunOK env sorter cs b)
+    (hid : IdsDistinct b.slots) (hdev : DevsDistinct b.slots)
+    (hall : ∀ s ∈ b.slots, s.repl.isSome = true → inClass c s.mnt = true)
+    (hc : c ∈ cs) (hd : env.desired c ≠ 0) :
+    Prot env c (runClasses env sorter cs b).utd (runClasses env sorter cs b).slots :=
+  runClasses_prot_of env sorter c
+    (fun l => IdsDistinct l ∧ DevsDistinct l ∧ ∀ s ∈ l, s.repl.isSome = true → inClass c s.mnt = true)
+    (fun l l' hrel h => by
+      refine ⟨?_, ?_, ?_⟩
+      · exact ((coreRel_mnt_perm hrel).pairwise_iff (fun {_ _} hab => fun e => hab e.symm)).2 h.1
+      · have hsym : ∀ {a b : Mount}, (a.dev = b.dev → a.dev = 0) → (b.dev = a.dev → b.dev = 0) :=
+          fun {a b} hab e => by rw [e]; exact hab e.symm
+        exact ((coreRel_mnt_perm hrel).pairwise_iff (R := fun (a b : Mount) => a.dev = b.dev → a.dev = 0) hsym).2 h.2.1
+      · intro s hs hr
+        obtain ⟨s', hs', e1, e2⟩ := mem_of_coreRel hrel hs
+        rw [← e1]; exact h.2.2 s' hs' (by rw [e2]; exact hr))
+    (fun S b _ hg => classIter_protects_inclass env c S b hg.1 hg.2.1 hg.2.2) cs b hok ⟨hid, hdev, hall⟩ hc hd
+
+/-- different mount objects that are not views of one device (servers may coincide) -/
+def DevApart (a b : Mount) : Prop := a.id ≠ b.id ∧ (a.dev = b.dev → a.dev = 0)
+
+theorem DevApart.symm {a b : Mount} (h : DevApart a b) : DevApart b a :=
+  ⟨fun e => h.1 e.symm, fun e => by rw [e]; exact h.2 e.symm⟩
+
+theorem Apart.toDev {a b : Mount} (h : Apart a b) : DevApart a b := ⟨h.1, h.2.2⟩
+
+theorem devApart_pairwise_of_perm {l₁ l₂ : List Mount} (h : l₁.Perm l₂) (hp : l₂.Pairwise DevApart) :
+    l₁.Pairwise DevApart :=
+  (h.pairwise_iff (fun {_ _} hab => DevApart.symm hab)).2 hp
 
 /-! ### the physical-device reading of a result -/
 
-theorem sameDevice_not_apart {a b : Mount} (h : sameDevice a b = true) : ¬ Apart a b := by
+theorem sameDevice_not_apart {a b : Mount} (h : sameDevice a b = true) : ¬ DevApart a b := by
   intro hab
   unfold sameDevice at h
   by_cases h0 : a.dev = 0
   · simp only [h0, if_true, beq_iff_eq] at h
     exact hab.1 h
   · simp only [h0, if_false, beq_iff_eq] at h
-    exact h0 (hab.2.2 h)
+    exact h0 (hab.2 h)
 
-theorem sameDevice_not_apart' {a b : Mount} (h : sameDevice a b = true) : ¬ Apart b a :=
+theorem sameDevice_not_apart' {a b : Mount} (h : sameDevice a b = true) : ¬ DevApart b a :=
   fun hba => sameDevice_not_apart h hba.symm
 
 theorem sameDevice_self (a : Mount) : sameDevice a a = true := by
   unfold sameDevice; split <;> simp
 
-theorem distinctDevices_of_apart : ∀ (l : List Mount), l.Pairwise Apart → distinctDevices l = l := by
+theorem distinctDevices_of_apart : ∀ (l : List Mount), l.Pairwise DevApart → distinctDevices l = l := by
   intro l
   induction l with
   | nil => intro _; rfl
@@ -180,24 +229,6 @@ theorem distinctDevices_of_apart : ∀ (l : List Mount), l.Pairwise Apart → di
       intro b hb hsd
       exact sameDevice_not_apart hsd (h'.1 b hb)
     simp [this]
-
-/-- elements of a list whose images are pairwise related by `R` are determined by their image up
-to `¬R` -/
-theorem eq_of_pairwise_map {α β : Type} (f : α → β) (R : β → β → Prop) :
-    ∀ (l : List α), (l.map f).Pairwise R → ∀ p ∈ l, ∀ q ∈ l, ¬ R (f p) (f q) → ¬ R (f q) (f p) → p = q := by
-  intro l
-  induction l with
-  | nil => intro _ p hp; cases hp
-  | cons a l ih =>
-    intro h p hp q hq h1 h2
-    have h' := List.pairwise_cons.1 (show (f a :: l.map f).Pairwise R from h)
-    rcases List.mem_cons.1 hp with rfl | hp'
-    · rcases List.mem_cons.1 hq with rfl | hq'
-      · rfl
-      · exact absurd (h'.1 (f q) (List.mem_map.2 ⟨q, hq', rfl⟩)) h1
-    · rcases List.mem_cons.1 hq with rfl | hq'
-      · exact absurd (h'.1 (f p) (List.mem_map.2 ⟨p, hp', rfl⟩)) h2
-      · exact ih h'.2 p hp' q hq' h1 h2
 
 theorem sum_filter_map_eq_ssum (c : Class) (q : Slot → Bool) : ∀ (L : List Slot),
     ((((L.filter q).map (·.mnt)).filter (inClass c)).map (·.repl)).sum =
@@ -239,20 +270,20 @@ theorem trashedMounts_mem (F : List Slot) (b : BState) (m : Mount) :
     exact ⟨(s, change env reps s), ⟨⟨s, hs, rfl⟩, ht⟩, rfl⟩
 
 /-- with pairwise-apart mounts, a mount is hit by the trash list iff its own slot is trashed -/
-theorem trashed_any_iff (F : List Slot) (b : BState) (hap : (F.map (·.mnt)).Pairwise Apart) (s : Slot) (hs : s ∈ F) :
+theorem trashed_any_iff (F : List Slot) (b : BState) (hap : (F.map (·.mnt)).Pairwise DevApart) (s : Slot) (hs : s ∈ F) :
     (Result.trashedMounts { changes := F.map (fun s => (s, change env reps s)), final := b }).any (sameDevice s.mnt) =
       (change env reps s).isTrash := by
   cases ht : (change env reps s).isTrash
   · rw [List.any_eq_false]
     intro m hm hsd
     obtain ⟨s', hs', ht', rfl⟩ := (trashedMounts_mem env reps F b m).1 hm
-    have : s = s' := eq_of_pairwise_map (·.mnt) Apart F hap s hs s' hs'
+    have : s = s' := eq_of_pairwise_map (fun (x : Slot) => x.mnt) DevApart F hap s hs s' hs'
       (sameDevice_not_apart hsd) (sameDevice_not_apart' hsd)
     rw [this, ht'] at ht; cases ht
   · rw [List.any_eq_true]
     exact ⟨s.mnt, (trashedMounts_mem env reps F b s.mnt).2 ⟨s, hs, ht, rfl⟩, sameDevice_self _⟩
 
-theorem heldAfter_eq (F : List Slot) (b : BState) (hap : (F.map (·.mnt)).Pairwise Apart) :
+theorem heldAfter_eq (F : List Slot) (b : BState) (hap : (F.map (·.mnt)).Pairwise DevApart) :
     (Result.heldAfter { changes := F.map (fun s => (s, change env reps s)), final := b }) =
       (F.filter (fun s => s.repl.isSome && !(change env reps s).isTrash)).map (·.mnt) := by
   unfold Result.heldAfter
@@ -265,7 +296,7 @@ theorem heldAfter_eq (F : List Slot) (b : BState) (hap : (F.map (·.mnt)).Pairwi
   rw [trashed_any_iff env reps F b hap s hs]
   cases s.repl.isSome <;> cases (change env reps s).isTrash <;> rfl
 
-theorem physRepl_before (c : Class) (F : List Slot) (b : BState) (hap : (F.map (·.mnt)).Pairwise Apart) :
+theorem physRepl_before (c : Class) (F : List Slot) (b : BState) (hap : (F.map (·.mnt)).Pairwise DevApart) :
     physRepl c (Result.heldBefore { changes := F.map (fun s => (s, change env reps s)), final := b }) =
       ssum (haveTerm c) F := by
   rw [heldBefore_eq]
@@ -274,7 +305,7 @@ theorem physRepl_before (c : Class) (F : List Slot) (b : BState) (hap : (F.map (
   rw [sum_filter_map_eq_ssum]
   rfl
 
-theorem physRepl_after (c : Class) (F : List Slot) (b : BState) (hap : (F.map (·.mnt)).Pairwise Apart) :
+theorem physRepl_after (c : Class) (F : List Slot) (b : BState) (hap : (F.map (·.mnt)).Pairwise DevApart) :
     physRepl c (Result.heldAfter { changes := F.map (fun s => (s, change env reps s)), final := b }) =
       ssum (keptTerm env reps c) F := by
   rw [heldAfter_eq env reps F b hap]
@@ -341,24 +372,56 @@ theorem initSlots_mnt (mounts : List Mount) (reps : List Replica) :
     simp only [List.map_cons, List.map_map] at ih ⊢
     rw [ih]
 
-/-- `C05_trash_safe_partial`, in the form used by Props/C05.lean -/
+/-- from the protection guarantee at the end of the class loop to the physical statement -/
+theorem trash_safe_of_prot (env : Env) (classes : List Class) (sorter : Class → List Slot → List Slot)
+    (mounts : List Mount) (reps : List Replica)
+    (hok : BalanceOK env classes sorter mounts reps) (hap : mounts.Pairwise DevApart) (c : Class)
+    (hprot : Prot env c (balanceBlock env classes sorter mounts reps).final.utd
+      (balanceBlock env classes sorter mounts reps).final.slots) :
+    min (env.desired c) (physRepl c (balanceBlock env classes sorter mounts reps).heldBefore) ≤
+      physRepl c (balanceBlock env classes sorter mounts reps).heldAfter := by
+  unfold BalanceOK at hok
+  have hap0 : ((initSlots mounts reps).map (·.mnt)).Pairwise DevApart := by rw [initSlots_mnt]; exact hap
+  have hrel := runClasses_coreRel env sorter classes _ hok
+  show min (env.desired c) (physRepl c (Result.heldBefore
+      { changes := (finalWant _).map (fun s => (s, change env reps s)), final := _ })) ≤
+    physRepl c (Result.heldAfter { changes := (finalWant _).map (fun s => (s, change env reps s)), final := _ })
+  have hapF : ((finalWant (runClasses env sorter classes
+      { slots := initSlots mounts reps, utd := [], underrep := false })).map (·.mnt)).Pairwise DevApart :=
+    devApart_pairwise_of_perm (coreRel_mnt_perm ((coreRel_finalWant _).trans hrel)) hap0
+  rw [physRepl_before env reps c _ _ hapF, physRepl_after env reps c _ _ hapF]
+  exact safe_of_prot env reps c _ hprot
+
+/-- one mount per server and no shared device -/
 theorem trash_safe_of_apart (env : Env) (classes : List Class) (sorter : Class → List Slot → List Slot)
     (mounts : List Mount) (reps : List Replica)
     (hok : BalanceOK env classes sorter mounts reps) (hap : mounts.Pairwise Apart)
     (c : Class) (hc : c ∈ classes) (hd : env.desired c ≠ 0) :
     min (env.desired c) (physRepl c (balanceBlock env classes sorter mounts reps).heldBefore) ≤
       physRepl c (balanceBlock env classes sorter mounts reps).heldAfter := by
-  unfold BalanceOK at hok
+  apply trash_safe_of_prot env classes sorter mounts reps hok (hap.imp Apart.toDev) c
   have hap0 : ((initSlots mounts reps).map (·.mnt)).Pairwise Apart := by rw [initSlots_mnt]; exact hap
-  have hprot := runClasses_prot env sorter c classes _ hok hap0 hc hd
-  have hrel := runClasses_coreRel env sorter classes _ hok
-  show min (env.desired c) (physRepl c (Result.heldBefore
-      { changes := (finalWant _).map (fun s => (s, change env reps s)), final := _ })) ≤
-    physRepl c (Result.heldAfter { changes := (finalWant _).map (fun s => (s, change env reps s)), final := _ })
-  have hapF : ((finalWant (runClasses env sorter classes
-      { slots := initSlots mounts reps, utd := [], underrep := false })).map (·.mnt)).Pairwise Apart :=
-    apart_pairwise_of_perm (coreRel_mnt_perm ((coreRel_finalWant _).trans hrel)) hap0
-  rw [physRepl_before env reps c _ _ hapF, physRepl_after env reps c _ _ hapF]
-  exact safe_of_prot env reps c _ hprot
+  exact runClasses_prot env sorter c classes _ hok hap0 hc hd
+
+/-- no shared device and every replica on a mount of the class (any number of mounts per server) -/
+theorem trash_safe_of_inclass (env : Env) (classes : List Class) (sorter : Class → List Slot → List Slot)
+    (mounts : List Mount) (reps : List Replica)
+    (hok : BalanceOK env classes sorter mounts reps) (hap : mounts.Pairwise DevApart)
+    (c : Class) (hc : c ∈ classes) (hd : env.desired c ≠ 0)
+    (hall : ∀ m ∈ mounts, (replicaOn reps m.id).isSome = true → inClass c m = true) :
+    min (env.desired c) (physRepl c (balanceBlock env classes sorter mounts reps).heldBefore) ≤
+      physRepl c (balanceBlock env classes sorter mounts reps).heldAfter := by
+  apply trash_safe_of_prot env classes sorter mounts reps hok hap c
+  have hmnt := initSlots_mnt mounts reps
+  apply runClasses_prot_inclass env sorter c classes _ hok
+  · show ((initSlots mounts reps).map (·.mnt)).Pairwise (fun a b => a.id ≠ b.id)
+    rw [hmnt]; exact hap.imp (fun h => h.1)
+  · show ((initSlots mounts reps).map (·.mnt)).Pairwise (fun a b => a.dev = b.dev → a.dev = 0)
+    rw [hmnt]; exact hap.imp (fun h => h.2)
+  · intro s hs hr
+    have := mem_initSlots hs
+    exact hall s.mnt this.1 (by rw [← this.2.1]; exact hr)
+  · exact hc
+  · exact hd
 
 end ArvVerif.C05
